@@ -58,3 +58,12 @@ func WriteJSON(path string, v interface{}) error {
 	}
 	return os.WriteFile(path, j, 0o644)
 }
+
+// WriteJSONCompact writes v as compact JSON (large tables).
+func WriteJSONCompact(path string, v interface{}) error {
+	j, err := json.Marshal(v)
+	if err != nil {
+		return err
+	}
+	return os.WriteFile(path, j, 0o644)
+}
